@@ -13,3 +13,22 @@ func VerifMakeGoodbyeBST(in []FormatGoodbyeItem) []FormatGoodbyeItem { return ma
 
 // VerifMkdev exposes mkdev.
 func VerifMkdev(major, minor uint64) uint64 { return mkdev(major, minor) }
+
+// VerifIndexFileHandle exposes the read path of an index mount's file handle
+// (indexFileHandle.read) without a FUSE mount.
+type VerifIndexFileHandle struct{ h *indexFileHandle }
+
+// VerifNewIndexFileHandle opens a handle the way indexFile.Open does.
+func VerifNewIndexFileHandle(idx Index, s Store) *VerifIndexFileHandle {
+	return &VerifIndexFileHandle{newIndexFileHandle(idx, s)}
+}
+
+// Read performs one FUSE read request; ok=false stands for EIO.
+func (v *VerifIndexFileHandle) Read(dest []byte, off int64) (data []byte, ok bool) {
+	res, errno := v.h.read(dest, off)
+	if errno != 0 {
+		return nil, false
+	}
+	b, _ := res.Bytes(make([]byte, len(dest)))
+	return b, true
+}
